@@ -137,3 +137,100 @@ class AsyncResponseAssign(Template):
 
 
 CONTRACTS = [ExecuteCall(), AsyncGeneratorLoop(), DataRetrieval(), ReturnParsed(), ResponseAssign(), AsyncResponseAssign()]
+
+
+# ------------------------------------------------------------------------------------------ the operation string
+# ResultTypesGenerator.get_operation_as_str: the authored operation (without @mixin) followed by every related fragment
+# (without @mixin), each once, in sorted order; plugins see - and may replace - the COMPLETE string.
+from ariadne_codegen.client_generators import result_types as RT          # noqa: E402
+from pyvc.interp import ModelMethod                                         # noqa: E402
+
+NOMIXIN = z3.Function("node_without_mixin_directive", V.Val, V.Val)
+RELATED = z3.Const("all_related_fragments", V.Val)
+HOOKED = z3.Function("plugins_generate_operation_str", z3.StringSort(), z3.StringSort())
+joined_fragments = z3.RecFunction("printed_related_fragments", V.VL, V.Val, z3.StringSort())
+_fl, _fd = z3.Const("frag_names", V.VL), z3.Const("frag_defs", V.Val)
+z3.RecAddDefinition(joined_fragments, [_fl, _fd], z3.If(V.is_VNil(_fl), V.S(""), z3.Concat(
+    V.S("\n\n"), GQ.PRINT_AST(NOMIXIN(get(_fd, V.hd(_fl)))), joined_fragments(V.tl(_fl), _fd))))
+
+
+class _FakePluginManager:
+    def _hook(I, o, a, k):
+        I.p.effect("generate_operation_str", (a, dict(k)))
+        return SV(V.VStr(HOOKED(V.vs(V.lower(a[0])))))
+    __pyvc_methods__ = {"generate_operation_str": _hook}
+
+
+V.REG.register(_FakePluginManager, [])
+
+
+class GetOperationAsStr(Contract):
+    props = ("C02", "C15")
+    target = "ariadne_codegen.client_generators.result_types:ResultTypesGenerator.get_operation_as_str"
+    use_at_calls = False
+    frame_args = False
+    trusted = ["graphql.print_ast: a function of the node", "sorted(): ascending permutation of its argument (py_sorted)",
+               "_get_node_without_mixin_directive / _get_all_related_fragments: stand-ins here (visitor / set code outside the subset), covered by e2e_documents"]
+
+    def setup(self, E):
+        with_plugins = E.fork("plugin_manager")
+        E.p.with_plugins = with_plugins
+        defs = E.sym("fragments_definitions", DictOf(GQ.NAME, Any, name="fragment_definitions"))
+        opdef = E.sym("operation_definition", Any)
+        self_ = self_obj(RT.ResultTypesGenerator, dict(
+            operation_definition=opdef, fragments_definitions=defs, plugin_manager=Obj(_FakePluginManager, {}) if with_plugins else None,
+            _fragments_used_as_mixins=E.mset("fragments_used_as_mixins", GQ.NAME), _unpacked_fragments=E.mset("unpacked_fragments", GQ.NAME)))
+        from pyvc.shapes import assume_shape
+        assume_shape(E.p, ListOf(GQ.NAME, name="related_names"), RELATED)
+        rel = V.vl(RELATED)
+        # every related fragment has a definition (the fragments were collected from the definitions)
+        self_.attrs["_get_node_without_mixin_directive"] = ModelMethod(self_, lambda I, o, a, k: SV(NOMIXIN(V.lower(a[0]))), "_get_node_without_mixin_directive")
+        from pyvc.val import MSet
+        self_.attrs["_get_all_related_fragments"] = ModelMethod(self_, lambda I, o, a, k: MSet(rel), "_get_all_related_fragments")
+        # ghost facts about the elements of sorted(related): sorting keeps the elements (py_sorted is a permutation), and every
+        # related fragment name has a definition (they were collected from the definitions)
+        xs = z3.simplify(models.PY_SORTED(rel))
+        table = E.ctx.__dict__.setdefault("elem_shapes", {})
+        table[xs.get_id()] = lambda v, _d=defs.t: z3.And(GQ.NAME.pred(v), has(_d, v))
+        E.ctx.__dict__.setdefault("keepalive", []).append(xs)
+        E.assume(joined_fragments(V.VNil, defs.t) == V.S(""))       # unfolding of the definition at nil
+        return [self_], {}
+
+    @property
+    def loops(self):
+        defs = z3.Const("fragments_definitions", V.Val)
+
+        def inv(rest, xs, st, I, env):
+            cur = V.vs(st["operation_str"])
+            op0 = GQ.PRINT_AST(NOMIXIN(z3.Const("operation_definition", V.Val)))
+            rs = z3.simplify(rest)
+            if z3.is_app(rs) and rs.decl().name() == "VCons":
+                V.LEMMAS.append(joined_fragments(rs, defs) == z3.Concat(V.S("\n\n"), GQ.PRINT_AST(NOMIXIN(get(defs, rs.arg(0)))), joined_fragments(rs.arg(1), defs)))
+            return z3.And(V.is_VStr(st["operation_str"]),
+                          z3.Concat(cur, joined_fragments(rest, defs)) == z3.Concat(op0, joined_fragments(xs, defs)))
+        return {"ResultTypesGenerator.get_operation_as_str": inv}
+
+    def requires(self, A):
+        return z3.BoolVal(True)
+
+    def ensures(self, A, res):
+        p = A["__path__"]
+        defs = z3.Const("fragments_definitions", V.Val)
+        op0 = GQ.PRINT_AST(NOMIXIN(z3.Const("operation_definition", V.Val)))
+        any_frag = z3.Or(V.is_VCons(V.vl(z3.Const("fragments_used_as_mixins", V.Val))), V.is_VCons(V.vl(z3.Const("unpacked_fragments", V.Val))))
+        full = z3.If(any_frag, z3.Concat(op0, joined_fragments(models.PY_SORTED(V.vl(RELATED)), defs)), op0)
+        hooks = [x for k, x in A["__effects__"] if k == "generate_operation_str"]
+        out = {}
+        if getattr(p, "with_plugins", False):
+            out["plugins-see-the-complete-document-once"] = z3.BoolVal(len(hooks) == 1)
+            out["operation-then-every-related-fragment-in-sorted-order/then-the-plugin-hook"] = res == V.VStr(HOOKED(full))
+        else:
+            out["operation-then-every-related-fragment-in-sorted-order"] = res == V.VStr(full)
+        return out
+
+    def replay_custom(self, inputs):
+        return dict(inputs={k: str(v)[:200] for k, v in inputs.items()}, failed=[], pre_ok=True, outcome=None, error=None,
+                    undetermined=["replayed end to end by contracts.e2e_documents / e2e_plugins"])
+
+
+CONTRACTS += [GetOperationAsStr()]
